@@ -21,6 +21,57 @@ def _to_value(I, a, ci, dt):
     return Ok(Opaque('json', v))
 
 
+def _json_payload(I, v):
+    while isinstance(v, Ref):
+        v = I.load(v)
+    if isinstance(v, Opaque) and v.tag == 'json':
+        p = v.data
+        while isinstance(p, Ref):
+            p = I.load(p)
+        return p
+    return None
+
+
+# serde_json::Value indexed by a field name: the field of the struct that was serialised (serde's
+# derive writes a struct as an object keyed by its field names; renames are not used in this crate).
+# A missing key yields Value::Null, as in serde_json.
+@reg('<Value as Index>::index')
+def _json_index(I, a, ci, dt):
+    from mirsym.models import as_sstr
+    p = _json_payload(I, a[0])
+    try:
+        key = bytes(as_sstr(I, a[1]).b).decode()
+    except Exception:
+        raise Unmodelled('serde_json::Value indexed by a non-string')
+    if isinstance(p, Struct) and p.name in I.prog.src.structs:
+        order = I.prog.src.structs[p.name]
+        if key in order:
+            return Ref(Cell(Opaque('json', p.f[order.index(key)])), ())
+    return Ref(Cell(Opaque('json', None)), ())
+
+
+@reg('Value::as_u64', 'Value::as_i64')
+def _json_as_u64(I, a, ci, dt):
+    p = _json_payload(I, a[0])
+    if (isinstance(p, int) and not isinstance(p, bool)) or is_sym(p):
+        return Some(p)
+    return NONE
+
+
+@reg('Value::as_str')
+def _json_as_str(I, a, ci, dt):
+    from mirsym.models import as_sstr
+    p = _json_payload(I, a[0])
+    if isinstance(p, (SStr, SString)):
+        return Some(as_sstr(I, p))
+    return NONE
+
+
+@reg('Value::is_null')
+def _json_is_null(I, a, ci, dt):
+    return _json_payload(I, a[0]) is None
+
+
 def S(I, b):
     if isinstance(b, str):
         b = b.encode()
